@@ -192,6 +192,11 @@ def per_routine(trace, with_values=True):
             item = (ev, e['secs'], e['vals'][0], e['vals'][1])
         elif ev == 'spawn' or ev == 'spawnd':
             item = (ev, e['secs'], e['child'])
+        elif ev in ('pause', 'resume', 'stop'):
+            info = e['vals'][1]
+            item = (ev, e['secs'], e['vals'][0],
+                    None if info is None else (info['pre'], info['post'],
+                                               info['exc']))
         else:
             item = (ev, e['secs'], tuple(e['vals']))
         out.setdefault(e['r'], []).append(item)
